@@ -550,3 +550,30 @@ func init() {
 		},
 	})
 }
+
+// stepQuery executes a read-only query on both sides and compares the outcomes only (the caller knows that queries do not
+// change the tree; a final snapshot comparison by the caller would catch it if they did).
+func (l *lockstep) stepQuery(o fsx.Op) stepResult {
+	cls := fsx.OpClass(l.osx.FS, o)
+	re := l.emu.Exec(o)
+	ro := l.osx.Exec(o)
+	sr := stepResult{emu: re, os: ro}
+	base := l.fsType + "|" + cls
+	sr.fatal = re.Err == "panic" || re.Err == "deadlock"
+	switch {
+	case re.Err != ro.Err:
+		sr.disagree = true
+		sr.sig = fmt.Sprintf("%s|emu=%s|os=%s", base, re.Err, ro.Err)
+		sr.what = fmt.Sprintf("%s: %s returns %s on %s but %s through OsFS on Linux", l.fsType, o, re, l.fsType, ro)
+	case re.Val != ro.Val:
+		sr.disagree = true
+		sr.sig = fmt.Sprintf("%s|%s|value-differs", base, re.Err)
+		sr.what = fmt.Sprintf("%s: %s returns %q but OsFS returns %q", l.fsType, o, re.Val, ro.Val)
+	default:
+		sr.sig = fmt.Sprintf("%s|%s", base, re.Err)
+	}
+	if sr.disagree {
+		l.hist = append(l.hist, o)
+	}
+	return sr
+}
